@@ -112,7 +112,7 @@ func c10(c *evid.Ctx) {
 	offsets := []time.Duration{0, 1, time.Second, 150 * time.Second, interval - 1}
 	delays := []time.Duration{0, time.Second, 4*time.Minute + 59*time.Second, 5 * time.Minute, 9*time.Minute + 59*time.Second, 10 * time.Minute,
 		10*time.Minute + 1, 12*time.Minute + 30*time.Second, 14*time.Minute + 59*time.Second, 15 * time.Minute, 15*time.Minute + 1, 20 * time.Minute, time.Hour}
-	extraOffsets := c.Scale(8, 160) // PRNG-chosen offsets and delays on top of the grid
+	extraOffsets := c.Scale(8, 1600) // PRNG-chosen offsets and delays on top of the grid
 	type combo struct{ o, d time.Duration }
 	var combos []combo
 	for _, o := range offsets {
@@ -120,6 +120,7 @@ func c10(c *evid.Ctx) {
 			combos = append(combos, combo{o, d})
 		}
 	}
+	grid := len(combos)
 	for i := 0; i < extraOffsets*4; i++ {
 		combos = append(combos, combo{time.Duration(r.U64() % uint64(interval)), time.Duration(r.U64() % uint64(25*time.Minute))})
 	}
@@ -128,7 +129,8 @@ func c10(c *evid.Ctx) {
 		alloc.V4() // disjoint address ranges per batch are not needed for soundness, only tidier WALs
 	}
 	for ci, cb := range combos {
-		if ci%c.NBatch != c.Batch || c.NumViolations() > 20 {
+		// the grid is shared out over the batches; the PRNG-drawn combinations are each batch's own
+		if ci < grid && ci%c.NBatch != c.Batch || c.NumViolations() > 20 {
 			continue
 		}
 		for fam := 0; fam < 2; fam++ { // IPv4 and IPv6 source
